@@ -457,7 +457,7 @@ Section Expand.
   Definition expand_macro (fuel : nat) (st : pstate) (buf : list tok) (t : tok)
                           (math : bool) : Res (list tok * list tok) :=
     (* buf: the buffer behind the macro token *)
-    let b := skip_space buf in
+    let b := skip_ctl buf in
     match assoc (txt t) (macros st) with
     | None =>
         let st := if math || mem_str (txt t) (unknowns st) then st
